@@ -783,7 +783,30 @@ where
     out.flush().unwrap();
 }
 
+/// with the `jlog` feature: a logger that accepts everything down to Trace and formats every record (so that the
+/// arguments of the crates' trace!/debug! calls are evaluated), discarding the text
+#[cfg(feature = "jlog")]
+struct SinkLogger;
+#[cfg(feature = "jlog")]
+impl log::Log for SinkLogger {
+    fn enabled(&self, _m: &log::Metadata) -> bool {
+        true
+    }
+    fn log(&self, r: &log::Record) {
+        let s = format!("{}", r.args());
+        std::hint::black_box(s);
+    }
+    fn flush(&self) {}
+}
+#[cfg(feature = "jlog")]
+static SINK: SinkLogger = SinkLogger;
+
 fn main() {
+    #[cfg(feature = "jlog")]
+    {
+        let _ = log::set_logger(&SINK);
+        log::set_max_level(log::LevelFilter::Trace);
+    }
     std::panic::set_hook(Box::new(|_| {}));
     run(|ts: Arc<TimerScript>| move || ts.next());
 }
